@@ -85,16 +85,37 @@ Definition avg_field_length_f (stats : option (Z * Z)) : float :=   (* (SumTotal
   | None => 0
   end.
 
-(* bm25.go:101  1 / (b.k1 * ((1 - b.b) + b.b*float64(docLen)/b.avgDocLen)); docLen : uint32 *)
+(* bm25.go:101  1 / (b.k1 * ((1 - b.b) + b.b*float64(docLen)/b.avgDocLen)); docLen : uint32.
+   The *_ff forms take the converted float64(docLen) / float64(freq). *)
+Definition norm_inverse_ff (lits : list Q) (k1 b dl avgdl : float) : float :=
+  litF lits 0 / (k1 * ((litF lits 1 - b) + b * dl / avgdl)).
 Definition norm_inverse_f (lits : list Q) (k1 b : float) (dl : Z) (avgdl : float) : float :=
-  litF lits 0 / (k1 * ((litF lits 1 - b) + b * f_of_u64 dl / avgdl)).
+  norm_inverse_ff lits k1 b (f_of_u64 dl) avgdl.
 
 (* bm25.go:96 *)
 Definition weight_f (boost idfv : float) : float := boost * idfv.
 
 (* bm25.go:99-103 Score *)
+Definition score_ff (w k1 b f dl avgdl : float) : float :=
+  w - w / (litF score_literals 2 + f * norm_inverse_ff score_literals k1 b dl avgdl).
 Definition score_f (w k1 b : float) (freq dl : Z) (avgdl : float) : float :=
-  w - w / (litF score_literals 2 + f_of_int freq * norm_inverse_f score_literals k1 b dl avgdl).
+  score_ff w k1 b (f_of_int freq) (f_of_u64 dl) avgdl.
+
+(* every intermediate float64 value of Score, in evaluation order; "no overflow, no division by
+   zero, no NaN" is: all of them are finite (checkable by evaluation) *)
+Definition score_trace (w k1 b f dl avgdl : float) : list float :=
+  let t1 := litF score_literals 1 - b in
+  let t2 := b * dl in
+  let t3 := t2 / avgdl in
+  let t4 := t1 + t3 in
+  let t5 := k1 * t4 in
+  let ni := litF score_literals 0 / t5 in
+  let t6 := f * ni in
+  let t7 := litF score_literals 2 + t6 in
+  let t8 := w / t7 in
+  [t1; t2; t3; t4; t5; ni; t6; t7; t8; w - t8].
+Definition score_finite (w k1 b f dl avgdl : float) : bool :=
+  forallb PrimFloat.is_finite (w :: k1 :: b :: f :: dl :: avgdl :: score_trace w k1 b f dl avgdl).
 
 (* bm25.go:105-120 explainTf *)
 Definition tf_f (k1 b : float) (freq dl : Z) (avgdl : float) : float :=
